@@ -50,6 +50,10 @@ def run(check, an: Analysis):
     c04.check_task_close(check, an, 'K')
     # ... on every way out of the until-block, after new tasks are refused
     c04.check_close_on_every_exit(check, an, 'K', [ISCOPE])
+    # leaving the block unsubscribes from whatever the notification parked the block in
+    from ..report import SubCheck
+    from . import c03
+    c03._check_subscribe_protocol(SubCheck(check, 'P', 'Notification'), an)
 
     # ---- P ------------------------------------------------------------------
     aenter = an.callee(ISCOPE, '__aenter__')
@@ -181,6 +185,12 @@ def run(check, an: Analysis):
     # ---- C ------------------------------------------------------------------
     c08._check_trigger_coverage(check, an, c08.condition_classes(an))
     # ---- R ------------------------------------------------------------------
+    check_run_root(check, an, 'R')
+    check.stats.update(an.stats())
+
+
+def check_run_root(check, an: Analysis, rule: str):
+    """run(till=T): one root activity `async with until(time == T)` starting all activities"""
     from . import _run
     run_fn, acts, rps = _run.run_paths(an)
     roots = {}
@@ -196,7 +206,7 @@ def run(check, an: Analysis):
         detail = 'until(time == till): %s; every activity started in order: %s ' \
                  '(%d paths of %s, parameters %s)' % (cond_ok, loop_ok, n_paths,
                                                       short(rp.root_fn.qn), rp.bound)
-    check.instance('R', 'run:root-shape', ok_root, where_fn(run_fn), detail)
+    check.instance(rule, 'run:root-shape', ok_root, where_fn(run_fn), detail)
     seen = set()
     for rp in rps:
         if rp.limited is None:
@@ -204,19 +214,18 @@ def run(check, an: Analysis):
         seen.add(rp.limited)
         wrapped = rp.initial == 'root'
         plain = rp.initial == 'activities'
-        check.instance('R', 'run:till=%s' % ('given' if rp.limited else 'None'),
+        check.instance(rule, 'run:till=%s' % ('given' if rp.limited else 'None'),
                        (wrapped if rp.limited else plain) and len(rp.loops) == 1,
                        where_fn(run_fn),
                        'the loop receives the single root activity iff a `till` is given, '
                        'the activities themselves otherwise (here: %s)' % rp.initial,
                        path=rules.path_lines(rp.path))
-    check.instance('R', 'run:both-cases', seen == {True, False}, where_fn(run_fn),
+    check.instance(rule, 'run:both-cases', seen == {True, False}, where_fn(run_fn),
                    'run distinguishes till given / not given')
     ok = bool(rps) and all(len(rp.loops) == 1 and rp.initial in ('root', 'activities')
                            for rp in rps) and len(roots) == 1
-    check.instance('R', 'run:single-root', ok, where_fn(run_fn),
+    check.instance(rule, 'run:single-root', ok, where_fn(run_fn),
                    'the loop receives exactly the one root activity')
-    check.stats.update(an.stats())
 
 
 def check_immediacy(check, an: Analysis, rule: str):
